@@ -38,12 +38,22 @@ PK_MODEL = {"string": "p", "error": "pe", "int": "po", "struct": "po"}     # eve
 _pk = [0]
 
 
-def frame(typ, plen, k=0, panic=False, mid=None, reply_to=None, rsv=0, ver=1, pseed=0, pkind=None):
+MODES = ["data", "unmarshal", "readall", "copy", "close"]     # + "" = io.ReadFull of k bytes
+
+
+def frame(typ, plen, k=0, panic=False, mid=None, reply_to=None, rsv=0, ver=1, pseed=0, pkind=None, mode=""):
+    # what the consumption path reads of an n-byte payload, for the model and the predicate
+    if mode in ("data", "unmarshal"):
+        k = plen if plen <= LIMIT else 0        # Message.data refuses to buffer more than the limit
+    elif mode in ("readall", "copy"):
+        k = plen
+    elif mode == "close":
+        k = 0
     if panic and pkind is None:           # rotate through the kinds of panic values
         pkind = PKINDS[_pk[0] % len(PKINDS)]
         _pk[0] += 1
     return dict(rsv=rsv, ver=ver, typ=typ, id=mid or 0, reply_to=reply_to, plen=plen, pseed=pseed, k=k, panic=panic,
-                pkind=pkind or "")
+                pkind=pkind or "", mode=mode)
 
 
 def ks(n):
@@ -64,11 +74,14 @@ class Builder:
         self.sc["steps"].append(dict(op="send", caller=j, typ=REQ_T))
         return j
 
-    def chunk(self, frames, seg="whole", segseed=1, segmax=64):
+    def chunk(self, frames, seg="whole", segseed=1, segmax=64, segcuts=None):
         for f in frames:
             self.pseed += 1
             f["pseed"] = self.pseed
-        self.sc["steps"].append(dict(op="chunk", frames=frames, seg=seg, segseed=segseed, segmax=segmax))
+        st = dict(op="chunk", frames=frames, seg=seg, segseed=segseed, segmax=segmax)
+        if segcuts is not None:
+            st["segcuts"] = list(segcuts)
+        self.sc["steps"].append(st)
 
     def raw(self, b, seg="whole"):
         self.sc["steps"].append(dict(op="raw", raw=b.hex(), seg=seg, segseed=3, segmax=5))
@@ -154,6 +167,38 @@ def tail_scenarios():
     return out
 
 
+def consume_scenarios(rnd, thorough):
+    """handler-delivered messages consumed through every path the API offers (Message.data, UnmarshalTo,
+    io.ReadAll / io.Copy on the payload reader, partial ReadFull, Close, nothing), with the frame arriving in
+    two segments split at EVERY offset (header bytes, header/payload boundary, every payload byte), in three
+    segments, and with payloads larger than one TCP segment; each followed by a sentinel frame that must be
+    parsed in place."""
+    out = []
+    paths = [("mode", m) for m in MODES] + [("k", "half"), ("k", "none"), ("k", "all")]
+    for ci, (hs, df) in enumerate([([T_H], False), ([], True)]):
+        for kind, how in paths:
+            b = Builder("consume/cfg%d/%s" % (ci, how), hs, df)
+
+            def fr(n, aw=False):
+                j = b.send() if aw else None
+                if kind == "mode":
+                    return frame(T_H, n, mode=how, reply_to=j, mid=0xFFFE0000)
+                return frame(T_H, n, k={"half": n // 2, "none": 0, "all": n}[how], reply_to=j, mid=0xFFFE0000)
+            for n in ((24,) if not thorough else (1, 2, 24, 100)):
+                for off in range(1, 10 + n):
+                    b.chunk([fr(n), frame(T_U, 2, 1, mid=0xFFFE0001)], "cuts", segcuts=[off])
+                for _ in range(6 if not thorough else 30):
+                    c1 = rnd.randrange(1, 10 + n)
+                    c2 = rnd.randrange(c1, 10 + n + 12)
+                    b.chunk([fr(n, aw=rnd.random() < 0.3), frame(T_U, 2, 1, mid=0xFFFE0001)], "cuts", segcuts=[c1, c2])
+            # larger than one TCP segment (1460 bytes), in MSS-sized and in random segments
+            for n in ((4000,) if not thorough else (1461, 4000, 70000)):
+                b.chunk([fr(n), frame(T_U, 2, 1, mid=0xFFFE0001)], "fixed", segmax=1460)
+                b.chunk([fr(n), frame(T_U, 2, 1, mid=0xFFFE0001)], "rand", segseed=n, segmax=1460)
+            out.append(b.sc)
+    return out
+
+
 def random_scenarios(rnd, count):
     out = []
     for si in range(count):
@@ -181,7 +226,8 @@ def random_scenarios(rnd, count):
                 if outstanding and rnd.random() < 0.5:
                     reply_to = outstanding.pop(rnd.randrange(len(outstanding)))
                 frames.append(frame(typ, n, k, rnd.random() < 0.25, mid=mid, reply_to=reply_to,
-                                    rsv=rnd.randrange(8), ver=rnd.randrange(8)))
+                                    rsv=rnd.randrange(8), ver=rnd.randrange(8),
+                                    mode=rnd.choice(MODES) if rnd.random() < 0.3 else ""))
             b.chunk(frames, rnd.choice(["whole", "byte", "rand"]), segseed=rnd.randrange(10 ** 6),
                     segmax=rnd.choice([2, 7, 64, 1000]))
         t = rnd.random()
@@ -515,7 +561,7 @@ def run(tier, seed, replay=None):
         for n in sorted(os.listdir(os.path.join(vlib.ROOT, "corpus"))):
             if n.startswith("C04_") and n.endswith(".json"):
                 scs += json.load(open(os.path.join(vlib.ROOT, "corpus", n))).get("scenarios", [])
-        scs += tail_scenarios() + matrix_scenarios(thorough) + limit_scenarios(thorough)
+        scs += tail_scenarios() + consume_scenarios(random.Random(seed + 5), thorough) + matrix_scenarios(thorough) + limit_scenarios(thorough)
         scs += random_scenarios(rnd, 1500 if thorough else 150)
 
     # which types does the code exempt from the awaiting lookup?  (none before the C03/F2 fix)
@@ -588,7 +634,7 @@ def run(tier, seed, replay=None):
                 aw.discard(f["id"])
             nontriv.add((path_of(sc, f, a), min(f["plen"], 70) if f["plen"] < LIMIT - 1 else f["plen"],
                          "all" if f["k"] >= f["plen"] else ("none" if f["k"] == 0 else "part"),
-                         (f.get("pkind") or "string") if f["panic"] else "",
+                         (f.get("pkind") or "string") if f["panic"] else "", f.get("mode") or "readfull",
                          next(st["seg"] for st in sc["steps"] if st["op"] == "chunk")))
         fails = property_check(sc, go)
         diffs = compare(sc, go, model)
